@@ -1,57 +1,76 @@
 import RbV.Model.Tsv
 import RbV.Lemmas.Tsv
+import RbV.Lemmas.CsvPlain
 /-!
 # C13 — BED and GFF/GTF records survive write → read; comments skipped; malformed lines are errors
 
-Property theorems about the model of the format (`RbV/Model/Tsv.lean`); helper lemmas are in
-`RbV/Lemmas/Tsv.lean`.  The model reader is the oracle of the driver: the real reader is compared with it on the
-real writer's bytes, on those bytes with comment lines, and on corrupted / truncated bytes.
+Property theorems about the model of the format (`RbV/Model/Tsv.lean`: `csv` quoting writer, `csv-core` automaton
+reader, attribute regular expression); helper lemmas are in `RbV/Lemmas/Csv.lean` and `RbV/Lemmas/Tsv.lean`.  The
+model reader is the oracle of the driver: the real reader is compared with it on the real writer's bytes, on those
+bytes with comment lines, and on corrupted / truncated bytes.
 
-A *file* is any interleaving of record lines, comment lines (`#…`) and blank lines (`Tsv.Item`), every line
-followed by LF.  Domain (hypotheses `BedOk`, `GffOk`, `AttrsOk`): fields contain neither TAB nor LF, the first
-field does not start with `#`, coordinates fit `u64`, phase ∈ {`.`,0,1,2}; attribute keys and values are non-empty,
-avoid the dialect's delimiters, carry no quote character at either end, keys do not start with a blank.
+A *file* is any interleaving of written records, comment lines (`#…`) and blank lines (`Tsv.Item`), each followed
+by LF.  Domain (hypotheses `BedOk`, `GffOk`, `AttrsOk`): the text columns (chrom and every optional BED column;
+seqname, source, type, score, strand of GFF) are **arbitrary byte strings** — `"`, TAB, CR, LF, backslash, `#`,
+blanks, empty — with one exception: a first column that starts with `#` and contains none of TAB, `"`, CR, LF is
+written unquoted, and a line that begins with `#` is a comment line of the format ("comment lines are skipped"), so
+such a record has no representation in the format (`hashStart`; domain boundary, also of the real writer/reader).
+A first column that starts with `#` but is quoted by the writer is inside the domain.  Coordinates fit `u64`, phase ∈ {`.`,0,1,2}; attribute keys and values are
+non-empty, avoid the dialect's delimiters and TAB, carry no quote character at either end, keys do not start with a
+blank.
 -/
 namespace RbV.Thm.C13
 open RbV RbV.Tsv
 
+/-- **csv record round trip.**  Every record with at least one field is read back field for field from its written
+form, whatever bytes the fields contain (`"`, TAB, CR, LF, backslash, …) — except the records the reader takes for
+a comment (`hashStart`: first field starts with `#` and nothing in it forces quotes); a record without fields
+cannot be written (the writer emits `""`, which is the record with one empty field). -/
+theorem csv_record_roundtrip (fs : List (List Nat)) (hne : fs ≠ []) (hh : hashStart fs = false) :
+    rows (recordBody fs ++ [LF]) = [fs] := by
+  unfold rows
+  rw [List.append_assoc, List.singleton_append, run_record fs hne hh, run_blank]
+  rfl
+
+example : rows (recordBody [[34, 92], [], [97, 9, 10, 13, 34, 34]] ++ [LF]) = [[[34, 92], [], [97, 9, 10, 13, 34, 34]]] :=
+  csv_record_roundtrip _ (by decide) (by decide)
+-- the two exclusions are genuine: `#a` TAB `b` is read as a comment, no fields are read as one empty field
+example : rows (recordBody [[35, 97], [98]] ++ [LF]) = [] := by decide
+example : rows (recordBody [] ++ [LF]) = [[[]]] := by decide
+example : rows (recordBody [[]] ++ [LF]) = [[[]]] := by decide
+
+/-- … for whole files: written records, comment lines and blank lines in any order are read as the records -/
+theorem csv_file_roundtrip (items : List Item) (fss : List (List (List Nat)))
+    (hitems : items.filterMap Item.rec? = fss.map recordBody)
+    (hfss : ∀ fs ∈ fss, fs ≠ [] ∧ hashStart fs = false)
+    (hcomments : ∀ t, Item.comment t ∈ items → LF ∉ t) :
+    rows (fileOf items) = fss :=
+  rows_fileOf items fss hitems hfss hcomments
+
+/-- **Reading quote-free bytes is reading lines**: on bytes without `"` and CR — whatever else they contain,
+garbage and truncated lines included — the csv automaton gives the LF-separated lines that are neither empty nor
+start with `#`, split at TAB (`rowsPlain`, the format the model consisted of before quoting was added). -/
+theorem rows_eq_rowsPlain (bytes : List Nat) (hq : QUOTE ∉ bytes) (hcr : CR ∉ bytes) :
+    rows bytes = rowsPlain bytes :=
+  rows_plain bytes hq hcr
+
+example : rows [99, 9, 49, 9, 50, 10, 35, 120, 10, 10, 100, 9, 51] = [[[99], [49], [50]], [[100], [51]]] := by
+  rw [rows_eq_rowsPlain _ (by decide) (by decide)]; decide
+
 /-- **BED round trip.**  Any file whose record lines are the written forms of records with a common number `k`
 of auxiliary columns — with comment and blank lines interleaved at will — is read back as exactly those records,
-field for field, every optional column included. -/
+field for field, every optional column included, whatever bytes the text columns contain. -/
 theorem bed_roundtrip (k : Nat) (recs : List BedRec) (items : List Item)
     (hrecs : ∀ r ∈ recs, BedOk k r)
     (hitems : items.filterMap Item.rec? = recs.map bedLine)
     (hcomments : ∀ t, Item.comment t ∈ items → LF ∉ t) :
     readBed (fileOf items) = recs.map Res.ok := by
-  have hline : ∀ l, Item.record l ∈ items → ∃ r ∈ recs, l = bedLine r := by
-    intro l hl
-    have : l ∈ items.filterMap Item.rec? := List.mem_filterMap.mpr ⟨_, hl, rfl⟩
-    rw [hitems] at this
-    obtain ⟨r, hr, rfl⟩ := List.mem_map.mp this
-    exact ⟨r, hr, rfl⟩
-  have hdl : dataLines (fileOf items) = recs.map bedLine := by
-    rw [dataLines_fileOf items ?_ ?_, hitems]
-    · intro it hit
-      cases it with
-      | record l =>
-        obtain ⟨r, hr, rfl⟩ := hline l hit
-        exact bedLine_noLF (hrecs r hr)
-      | comment t =>
-        intro h
-        simp only [Item.line, List.mem_cons] at h
-        rcases h with h | h
-        · simp [LF, HASH] at h
-        · exact hcomments t hit h
-      | blank => simp [Item.line]
-    · intro l hl
-      obtain ⟨r, hr, rfl⟩ := hline l hl
-      exact bedLine_good (hrecs r hr)
   have hrows : rows (fileOf items) = recs.map bedFields := by
-    unfold rows
-    rw [hdl, List.map_map]
-    apply List.map_congr_left
-    intro r hr
-    exact bedLine_split (hrecs r hr)
+    apply rows_fileOf items (recs.map bedFields) _ _ hcomments
+    · rw [hitems, List.map_map]; rfl
+    · intro fs hfs
+      obtain ⟨r, hr, rfl⟩ := List.mem_map.mp hfs
+      exact ⟨by simp [bedFields], (hrecs r hr).chromHash⟩
   unfold readBed
   rw [hrows, withCount_uniform parseBedFields _ (3 + k) ?_, List.map_map]
   · apply List.map_congr_left
@@ -78,8 +97,9 @@ theorem attrs_roundtrip_lookup (d : Dialect) (hd : d = gff3 ∨ d = gff2) (g : L
   exact valuesOf_flatPairs g hkeys k vs hmem
 
 /-- **GFF/GTF round trip.**  Any file whose record lines are the written forms of records of the domain — with
-comment and blank lines interleaved at will — is read back as exactly those records: coordinates, score / strand /
-phase including the `.` placeholders, and every attribute key with all of its values. -/
+comment and blank lines interleaved at will — is read back as exactly those records: seqname, source, type, score,
+strand (arbitrary bytes), coordinates, phase including the `.` placeholder, and every attribute key with all of its
+values. -/
 theorem gff_roundtrip (d : Dialect) (hd : d = gff3 ∨ d = gff2) (recs : List GffRec) (items : List Item)
     (hrecs : ∀ r ∈ recs, GffOk d r)
     (hitems : items.filterMap Item.rec? = recs.map (gffLine d))
@@ -89,35 +109,12 @@ theorem gff_roundtrip (d : Dialect) (hd : d = gff3 ∨ d = gff2) (recs : List Gf
     rcases hd with rfl | rfl
     · exact gff3_ok
     · exact gff2_ok
-  have hline : ∀ l, Item.record l ∈ items → ∃ r ∈ recs, l = gffLine d r := by
-    intro l hl
-    have : l ∈ items.filterMap Item.rec? := List.mem_filterMap.mpr ⟨_, hl, rfl⟩
-    rw [hitems] at this
-    obtain ⟨r, hr, rfl⟩ := List.mem_map.mp this
-    exact ⟨r, hr, rfl⟩
-  have hdl : dataLines (fileOf items) = recs.map (gffLine d) := by
-    rw [dataLines_fileOf items ?_ ?_, hitems]
-    · intro it hit
-      cases it with
-      | record l =>
-        obtain ⟨r, hr, rfl⟩ := hline l hit
-        exact gffLine_noLF hdo (hrecs r hr)
-      | comment t =>
-        intro h
-        simp only [Item.line, List.mem_cons] at h
-        rcases h with h | h
-        · simp [LF, HASH] at h
-        · exact hcomments t hit h
-      | blank => simp [Item.line]
-    · intro l hl
-      obtain ⟨r, hr, rfl⟩ := hline l hl
-      exact gffLine_good (hrecs r hr)
   have hrows : rows (fileOf items) = recs.map (gffFields d) := by
-    unfold rows
-    rw [hdl, List.map_map]
-    apply List.map_congr_left
-    intro r hr
-    exact gffLine_split hdo (hrecs r hr)
+    apply rows_fileOf items (recs.map (gffFields d)) _ _ hcomments
+    · rw [hitems, List.map_map]; rfl
+    · intro fs hfs
+      obtain ⟨r, hr, rfl⟩ := List.mem_map.mp hfs
+      exact ⟨by simp [gffFields], (hrecs r hr).seqHash⟩
   unfold readGff
   rw [hrows, withCount_uniform (parseGffFields d) _ 9 ?_, List.map_map]
   · apply List.map_congr_left
@@ -187,24 +184,30 @@ example : readU64 [45, 49] = .err := by decide        -- "-1"
 example : readU64 [49, 50, 97] = .err := by decide    -- "12a"
 example : readU64 [] = .err := by decide              -- ""
 
-/-- **Records before the damage are unchanged** (BED): whatever follows a line break — further records, garbage,
-a truncated line — never changes what is read from the bytes before it. -/
-theorem earlier_records_unchanged_bed (a b : List Nat) :
+/-- **Records before the damage are unchanged** (BED): whatever follows a line break that is not inside an open
+quoted field (`openQuote a = false`) — further records, garbage, a truncated line — never changes what is read from
+the bytes before it. -/
+theorem earlier_records_unchanged_bed (a b : List Nat) (h : openQuote a = false) :
     (readBed (a ++ LF :: b)).take (readBed a).length = readBed a := by
   unfold readBed
-  rw [rows_append]
+  rw [rows_append a b h]
   exact withCount_prefix parseBedFields (rows a) (rows b)
 
 /-- **Records before the damage are unchanged** (GFF/GTF). -/
-theorem earlier_records_unchanged_gff (d : Dialect) (a b : List Nat) :
+theorem earlier_records_unchanged_gff (d : Dialect) (a b : List Nat) (h : openQuote a = false) :
     (readGff d (a ++ LF :: b)).take (readGff d a).length = readGff d a := by
   unfold readGff
-  rw [rows_append]
+  rw [rows_append a b h]
   exact withCount_prefix (parseGffFields d) (rows a) (rows b)
 
--- non-vacuity of the hypotheses: a GFF3 record with a multi-valued attribute and `.` placeholders is in the domain
-example : GffOk gff3 ⟨[97], [98], [99], 1, 20, [46], [43], none, [([84], [[120], [121]]), ([73], [[122]])]⟩ := by
-  refine ⟨by decide, by decide, by decide, by decide, by decide, by decide, by decide, by decide, by simp, ?_⟩
+example : openQuote [99, 9, 49, 9, 50] = false := by decide           -- c TAB 1 TAB 2
+example : openQuote [99, 9, 34, 49, 10] = true := by decide           -- c TAB "1 LF : the quote is still open
+
+-- non-vacuity of the hypotheses: a GFF3 record with a multi-valued attribute, `.` placeholders, and quote / TAB /
+-- LF / backslash / `#` in the free-text columns is in the domain
+example : GffOk gff3 ⟨[34, 97], [35, 9], [92, 10, 13], 1, 20, [46], [43], none,
+    [([84], [[120], [121]]), ([73], [[122]])]⟩ := by
+  refine ⟨by decide, by decide, by decide, by decide, ?_⟩
   intro kv hkv
   simp only [List.mem_cons, List.not_mem_nil, or_false] at hkv
   have tok : ∀ t : List Nat, t ≠ [] → (∀ c ∈ t, isKV gff3 c = true) → TokOk gff3 t := fun t a b => ⟨a, b⟩
@@ -212,22 +215,20 @@ example : GffOk gff3 ⟨[97], [98], [99], 1, 20, [46], [43], none, [([84], [[120
     intro a h1 h2
     constructor <;> (intro c hc; simp at hc; subst hc; exact ⟨h1, h2⟩)
   rcases hkv with rfl | rfl
-  · refine ⟨⟨tok _ (by decide) (by decide), by decide, nq _ (by decide) (by decide), by decide⟩, by decide, ?_⟩
+  · refine ⟨⟨tok _ (by decide) (by decide), by decide, nq _ (by decide) (by decide)⟩, by decide, ?_⟩
     intro v hv
     simp only [List.mem_cons, List.not_mem_nil, or_false] at hv
     rcases hv with rfl | rfl
-    · exact ⟨tok _ (by decide) (by decide), by decide, nq _ (by decide) (by decide), by decide⟩
-    · exact ⟨tok _ (by decide) (by decide), by decide, nq _ (by decide) (by decide), by decide⟩
-  · refine ⟨⟨tok _ (by decide) (by decide), by decide, nq _ (by decide) (by decide), by decide⟩, by decide, ?_⟩
+    · exact ⟨tok _ (by decide) (by decide), by decide, nq _ (by decide) (by decide)⟩
+    · exact ⟨tok _ (by decide) (by decide), by decide, nq _ (by decide) (by decide)⟩
+  · refine ⟨⟨tok _ (by decide) (by decide), by decide, nq _ (by decide) (by decide)⟩, by decide, ?_⟩
     intro v hv
     simp only [List.mem_cons, List.not_mem_nil, or_false] at hv
     subst hv
-    exact ⟨tok _ (by decide) (by decide), by decide, nq _ (by decide) (by decide), by decide⟩
+    exact ⟨tok _ (by decide) (by decide), by decide, nq _ (by decide) (by decide)⟩
 
-example : BedOk 2 ⟨[99, 104, 114], 5, 5000, [[110], []]⟩ := by
-  refine ⟨by decide, by decide, by decide, by decide, ?_, by decide, by decide⟩
-  intro a ha
-  simp only [List.mem_cons, List.not_mem_nil, or_false] at ha
-  rcases ha with rfl | rfl <;> decide
+-- chrom `"\` (quote, backslash), name with TAB and LF, an empty column, a column that is one quote
+example : BedOk 3 ⟨[34, 92], 5, 5000, [[110, 9, 10], [], [34]]⟩ := by
+  refine ⟨by decide, by decide, by decide, by decide⟩
 
 end RbV.Thm.C13
